@@ -98,7 +98,8 @@ Lemma class_written t bs aux :
     mapO fa_field (k_fields t) = Some fs /\ mapO2 fa_method (k_methods t) (a_codes aux) = Some ms /\
     decodes (fun c => p_list16 (p_member AtField c)) fs (a_pool aux) fields /\
     decodes (fun c => p_list16 (p_member AtMethod c)) ms (a_pool aux) mbytes /\
-    decodes (fun c => p_list16 (p_attr AtClass c)) ds (a_pool aux) abytes.
+    decodes (fun c => p_list16 (p_attr AtClass c)) ds (a_pool aux) abytes /\
+    (exists d, facts_of t aux = Some d /\ d_fields d = fs /\ d_methods d = ms /\ d_attrs d = ds).
 Proof.
   intros Hok Hw. pose proof Hok as Hok0. unfold cclass_ok in Hok. bsplit. okfacts.
   unfold write_class_aux in Hw.
@@ -186,7 +187,10 @@ Proof.
   split; [exact (refers_mono _ _ _ _ _ X1 Q1)|]. split; [exact (refers0_mono _ _ _ _ _ X2 Q2)|].
   split; [eapply Forall2_impl'; [|exact Q3]; intros x i Hr; exact (refers_mono _ _ _ _ _ X3 Hr)|].
   split; [exact Hfs|]. split; [exact Hms|].
-  split; [exact (decodes_mono _ _ _ pF _ X4 Q4)|]. split; [exact Hmeth|exact Hattrs].
+  split; [exact (decodes_mono _ _ _ pF _ X4 Q4)|]. split; [exact Hmeth|]. split; [exact Hattrs|].
+  unfold facts_of. cbn [a_codes a_bsm]. rewrite Hfs, Hms, Han, Hrc. cbn [obind].
+  eexists. split; [reflexivity|]. cbn [d_fields d_methods d_attrs]. split; [reflexivity|]. split; [reflexivity|].
+  unfold dsall. rewrite !leafs_app, <- !app_assoc. reflexivity.
 Qed.
 
 (* ---------------------------------------------------------------------------------------------- *)
@@ -287,10 +291,11 @@ Lemma class_read_base impl dec t bs aux :
     mapO fa_field (k_fields t) = Some fs /\ mapO2 fa_method (k_methods t) (a_codes aux) = Some ms /\
     decodes (fun c => p_list16 (p_member AtField c)) fs (a_pool aux) fields /\
     decodes (fun c => p_list16 (p_member AtMethod c)) ms (a_pool aux) mbytes /\
-    decodes (fun c => p_list16 (p_attr AtClass c)) ds (a_pool aux) abytes.
+    decodes (fun c => p_list16 (p_attr AtClass c)) ds (a_pool aux) abytes /\
+    (exists d, facts_of t aux = Some d /\ d_fields d = fs /\ d_methods d = ms /\ d_attrs d = ds).
 Proof.
   intros Hok Hw Hgate Hdec.
-  destruct (class_written t bs aux Hok Hw) as (pb & this & super & idxs & fields & mbytes & abytes & fs & ms & ds & -> & Hpb & Hinv & Hmade & (Hmi & Hma & Hac & Hnif) & Q1 & Q2 & Q3 & Hfs & Hms & Df & Dm & Da).
+  destruct (class_written t bs aux Hok Hw) as (pb & this & super & idxs & fields & mbytes & abytes & fs & ms & ds & -> & Hpb & Hinv & Hmade & (Hmi & Hma & Hac & Hnif) & Q1 & Q2 & Q3 & Hfs & Hms & Df & Dm & Da & Hd).
   set (tail := fields ++ mbytes ++ abytes) in *.
   destruct (BP.pool_read dec (a_pool aux) pb (be16 (k_access t) ++ be16 this ++ be16 super ++ (be16 (zlen (k_interfaces t)) ++ flat_map be16 idxs) ++ tail)
               Hinv Hmade Hpb) as (cs & Ecs & Hcs & Hag & Hrd).
